@@ -90,6 +90,16 @@ def cases(tier, seed):
                                 out.append({"key": f"stop/damped/{base}/tol={tol}", "solver": "damped", "m": m, "n": n, "comp": list(comp), "how": how, "kind": kind, "gamma": 1.0, "cr": True, "sparse": False, "mode": "stop", "tol": tol})
                                 out.append({"key": f"stop/damped-cov/{base}/tol={tol}", "solver": "damped", "m": m, "n": n, "comp": list(comp), "how": how, "kind": kind, "gamma": 1.0, "cr": False, "sparse": False, "mode": "stop", "tol": tol})
                                 out.append({"key": f"stop/third/{base}/tol={tol}", "solver": "third", "m": m, "n": n, "comp": list(comp), "how": how, "kind": kind, "gamma": None, "cr": True, "sparse": False, "mode": "stop", "tol": tol})
+    # long trajectories on full-rank inputs with a wide singular-value range (sigma_min / sigma_max = 2^-27): the small direction
+    # only starts to move after ~50 damped / ~30 third-order steps, long after the large ones have converged and the
+    # residuals sit on their rounding floor
+    for m, n in ((2, 2), (3, 3), (4, 3), (3, 4)) + (() if tier == "quick" else ((5, 5), (6, 4), (4, 6))):
+        p = min(m, n)
+        vals = [1.0, 0.625, 0.3125, 0.75, 0.5, 0.875][: p - 1] + [2.0 ** -27]
+        for solver, g, K_ in (("damped", 1.0, 70), ("damped", 0.5, 110), ("third", None, 45)):
+            for cr in ((True, False) if solver == "damped" else (True,)):
+                out.append({"key": f"long/{solver}/{m}x{n}/g={g}/res={int(cr)}", "solver": solver, "m": m, "n": n, "comp": [1] * p, "how": "head", "kind": "hh", "gamma": g, "cr": cr,
+                            "sparse": False, "mode": "traj", "vals": vals, "K": K_})
     for c in out:
         c["tier"] = tier
     return out
@@ -98,7 +108,7 @@ def cases(tier, seed):
 def step(t, solver, gamma):
     if solver == "damped":
         return t * (1.0 + gamma * (1.0 - t))
-    return 1.0 - (1.0 - t) ** 3
+    return t * (3.0 - 3.0 * t + t * t)  # = 1 - (1 - t)^3 without cancellation for tiny t
 
 
 def penrose(A, X):
@@ -118,6 +128,8 @@ def run_case(case, seed):
     K = 12 if case.get("tier", "quick") == "quick" else 30
     fill = G.Fill(seed, stream=hash_tag(f"{m}x{n}/{case['kind']}"))
     s = assign(case["comp"], case["how"], MENU if case.get("tier", "quick") == "quick" else MENU_T)
+    if case.get("vals"):
+        s, K = list(case["vals"]), case["K"]
     if case.get("scale"):
         s = [float(np.ldexp(v, case["scale"])) for v in s]
     r = len(s)
@@ -192,6 +204,8 @@ def run_case(case, seed):
     steps_ok = 0
     for k in range(1, K + 1):
         t = step(t, case["solver"], case["gamma"])
+        if case.get("vals") and k % 5 and k != K:
+            continue  # long trajectories: every 5th budget (each budget is a full run)
         ok, res = call(make(k, 0.0).compute, Ain)
         if not ok:
             fails.append(fail("raised", f"budget {k}: {type(res).__name__}: {res}", k=k, **tags))
@@ -211,6 +225,8 @@ def run_case(case, seed):
         if r < min(m, n):
             growth = (1.0 + case["gamma"]) ** k if case["solver"] == "damped" else 3.0 ** k
         tolX = O.budget(max(O.fro(Xm), 1e-300), dims=64 * k * cond) * growth + 64 * O.U * growth * max(O.fro(Xm), 1.0 / max(nA, 1e-300)) * (1 if r else 0)
+        if case.get("vals"):
+            tolX = O.budget(O.fro(Xm), dims=cond)  # measured on the pinned tree: <= 2e-8 ||X_k|| at cond 1.3e8 (u cond); budget 2^10 u cond
         dev = O.fro(X - Xm)
         if dev > tolX:
             fails.append(fail("iterate!=spectral_model", f"k={k}: ||X_k - V diag(t_k/s) U^H||_F = {dev:.3e} (budget {tolX:.1e}, ||X_k||={O.fro(Xm):.3e})", k=k, **tags))
@@ -239,7 +255,7 @@ def run_case(case, seed):
                 if abs(rep - val) > O.budget(max(nA, 1.0) * max(O.fro(X), 1.0) ** 2 * max(nA, 1.0), dims=64 * max(m, n)) * growth + 1e-12 * val:
                     fails.append(fail("residual_history_truthful", f"k={k}: reported {key} = {rep!r}, recomputed from the returned iterate {val!r}", k=k, hist=key, **tags))
             cur = {key: list(v) for key, v in resid.items()}
-            if prev_res is not None and any(cur[key][:-1] != prev_res[key] for key in cur):
+            if prev_res is not None and any(cur[key][: len(prev_res[key])] != prev_res[key] for key in cur):
                 fails.append(fail("history_prefix_stable", f"k={k}: history of budget k-1 is not a prefix", k=k, **tags))
             prev_res = cur
         else:
@@ -249,13 +265,14 @@ def run_case(case, seed):
             cov = list(third)
             if len(cov) != k:
                 fails.append(fail("history_length", f"k={k}: {len(cov)} covariance entries", k=k, **tags))
-            else:
+            elif (k - 1) in Xs:
                 Xprev = Xs[k - 1]
                 I_t = O.qeye(n if m >= n else m)
                 val = O.fro((O.qmatmul(Xprev, A) if m >= n else O.qmatmul(A, Xprev)) - I_t)
                 if abs(cov[-1] - val) > 1e-10 * max(1.0, val):
                     fails.append(fail("covariance_history_truthful", f"k={k}: reported {cov[-1]!r}, ||X_(k-1) A - I|| = {val!r}", k=k, **tags))
-                if prev_cov is not None and cov[:-1] != prev_cov:
+            if len(cov) == k:
+                if prev_cov is not None and cov[: len(prev_cov)] != prev_cov:
                     fails.append(fail("history_prefix_stable", f"k={k}: covariance history not a prefix", k=k, **tags))
                 prev_cov = cov
         if fails:
@@ -270,7 +287,7 @@ def run_case(case, seed):
         "digest": digest(A, case["key"].split("/")[0], case["gamma"], case["cr"], case["sparse"]),
         "states": states,
         "transitions": steps_ok,
-        "traces": 1 if (not fails and steps_ok == K) else 0,
+        "traces": 1 if (not fails and (steps_ok == K or case.get("vals"))) else 0,
         "path": f"{case['solver']},{'left' if m >= n else 'right'},r{'<' if r < min(m, n) else '='}p",
         "obs": [steps_ok, [f["clause"] for f in fails]],
     }
